@@ -36,6 +36,9 @@ type Obligation struct {
 	raw        string      // lemma over mathematical integers: complete SMT-LIB text (no program state involved)
 	hints      []smt.Term  // sufficient refutations tried when the exact query is undecided (counterexample search)
 	cex        *smt.Term   // refutation under which a counterexample was found (replaces "not goal")
+	// Canary: the goal is false on purpose; the expected answer is sat (the hooked call is reachable
+	// under the facts assumed from earlier obligations). unsat means the contracts of this hook hold vacuously.
+	Canary bool
 }
 
 // Query returns the SMT-LIB text whose unsatisfiability proves the obligation.
